@@ -331,3 +331,56 @@ def h_eq_fields(ctx, cfg):
                getattr(getattr(cls.__dict__[m], "__code__", None), "co_filename", "").endswith("__init__.py")]
         ctx.prove("generated_eq_and_hash[%s]" % name, z3.BoolVal(not own or name == "Constant"), detail=repr(own))
     ctx.prove("fields_found", z3.BoolVal(n >= 30))
+
+
+@harness("portability.no_construct_that_only_newer_interpreters_evaluate", props=["C15", "C07", "C01"], functions=["code_data (all library modules)"], configs="any",
+         notes="every library module parses with the 3.7 grammar (no walrus, no positional-only marker, no match, no parenthesised context managers), and no expression that is "
+               "*evaluated at run time* (i.e. outside annotations, which `from __future__ import annotations` keeps unevaluated) subscripts a builtin container type (`list[int]`: TypeError "
+               "before 3.9) or combines types with `|` (TypeError before 3.10); a construct under an explicit version test is undecided, not failed")
+def h_portability(ctx, cfg):
+    from pcv.core import Unsupported
+    guarded = []
+    n = 0
+    for f, tree in _module_trees():
+        if f == "_cli.py":
+            continue
+        src = open(os.path.join(PKG(), f), encoding="utf-8").read()
+        try:
+            ast.parse(src, feature_version=(3, 7))
+            ok37 = True
+        except SyntaxError as e:
+            ok37 = False
+        ctx.prove("parses_with_the_3.7_grammar[%s]" % f, z3.BoolVal(ok37))
+        future_ann = any(isinstance(s, ast.ImportFrom) and s.module == "__future__" and any(a.name == "annotations" for a in s.names) for s in tree.body)
+        ann_nodes = set()
+        for node in ast.walk(tree):
+            anns = []
+            if isinstance(node, (ast.FunctionDef, ast.AsyncFunctionDef)):
+                anns += [node.returns] + [a.annotation for a in node.args.posonlyargs + node.args.args + node.args.kwonlyargs + [node.args.vararg, node.args.kwarg] if a is not None]
+            elif isinstance(node, ast.AnnAssign):
+                anns.append(node.annotation)
+            for a in anns:
+                if a is not None and future_ann:
+                    ann_nodes.update(id(x) for x in ast.walk(a))
+        version_guarded = set()
+        for node in ast.walk(tree):
+            if isinstance(node, ast.If) and any(isinstance(x, ast.Attribute) and x.attr in ("version_info", "hexversion") or isinstance(x, ast.Name) and x.id in ("TYPE_CHECKING", "_ATLEAST_310", "USE_LINETABLE")
+                                                 for x in ast.walk(node.test)):
+                version_guarded.update(id(x) for x in ast.walk(node))
+        for node in ast.walk(tree):
+            bad = None
+            if isinstance(node, ast.Subscript) and isinstance(node.value, ast.Name) and node.value.id in ("list", "dict", "tuple", "set", "frozenset", "type") and id(node) not in ann_nodes:
+                bad = "run-time subscript of builtin type %s (line %d)" % (ast.unparse(node)[:40], node.lineno)
+            elif (isinstance(node, ast.BinOp) and isinstance(node.op, ast.BitOr) and id(node) not in ann_nodes and
+                  any(isinstance(s, ast.Name) and s.id in ("int", "str", "bytes", "float", "bool", "None", "list", "dict", "tuple", "set", "frozenset", "object", "complex") or
+                      isinstance(s, ast.Constant) and s.value is None for s in (node.left, node.right))):
+                bad = "run-time union of types %s (line %d)" % (ast.unparse(node)[:40], node.lineno)
+            if bad:
+                n += 1
+                if id(node) in version_guarded:
+                    guarded.append("%s: %s" % (f, bad))
+                else:
+                    ctx.prove("no_runtime_generic_alias_or_type_union[%s]" % f, z3.BoolVal(False), detail=bad)
+        ctx.prove("no_runtime_generic_alias_or_type_union[%s]" % f, z3.BoolVal(True))
+    if guarded:
+        raise Unsupported("constructs under a version test: %s" % "; ".join(guarded[:4]))
